@@ -592,7 +592,7 @@ func c15ReplayOrRecords(c *core.Ctx, corpusFile string) {
 		Case string `json:"case"`
 	}
 	json.Unmarshal(b, &r)
-	if strings.HasPrefix(r.Case, "rec/") || strings.HasPrefix(r.Case, "irec/") || strings.HasPrefix(r.Case, "idx/") {
+	if strings.HasPrefix(r.Case, "rec/") || strings.HasPrefix(r.Case, "irec/") || strings.HasPrefix(r.Case, "lrec/") || strings.HasPrefix(r.Case, "idx/") {
 		c15Records(c)
 		return
 	}
